@@ -72,7 +72,7 @@ Definition proj_c01 := {| p_writes := false; p_changes := false; p_entities := t
 Definition now_of (st : store) : Z := s_clock st.
 
 (** does the model (variant v) predict the observation of op [o] in state [st]? *)
-Definition agree_op (pr : proj) (st : store) (o : sop) : bool :=
+Definition agree_op (db : bool) (pr : proj) (st : store) (o : sop) : bool :=
   match o with
   | SWrite _ _ => true   (* checked by [agree_run] against the state after the write *)
   | SChanges ds since limit latest o_ents o_next =>
@@ -89,7 +89,13 @@ Definition agree_op (pr : proj) (st : store) (o : sop) : bool :=
   | SGet id at_ scope merged o_found o_partials o_deleted =>
     negb (p_get pr) ||
     (let at' := match at_ with Some t => t | None => now_of st end in
-     let '(parts, hasdel) := entity_at st id at' scope in
+     let '(parts0, hasdel) := entity_at st id at' scope in
+     (* [db] = repaired lookup: scoped to exactly one dataset, a deleted last version is returned with its body (F01c) *)
+     let parts := if db then match scope, parts0 with
+                              | [d], [] => match best_version id at' (d_entries (get_ds st d)) None with
+                                           | Some e => [(d, en_c e)] | None => [] end
+                              | _, _ => parts0 end
+                  else parts0 in
      if o_found then
        if merged && (1 <? Z.of_nat (length parts)) then true   (* merged body of several partials: not decomposed *)
        else list_eqb partial_eqb parts o_partials
@@ -97,7 +103,7 @@ Definition agree_op (pr : proj) (st : store) (o : sop) : bool :=
      else match parts with [] => negb hasdel | _ => false end)
   end.
 
-Fixpoint agree_run (v : variant) (pr : proj) (st : store) (ops : list sop) : bool :=
+Fixpoint agree_run (v : variant) (db : bool) (pr : proj) (st : store) (ops : list sop) : bool :=
   match ops with
   | [] => true
   | o :: ops' =>
@@ -110,12 +116,12 @@ Fixpoint agree_run (v : variant) (pr : proj) (st : store) (ops : list sop) : boo
                   Z.eqb (Z.of_nat (length (d_entries (get_ds st' ds))) - Z.of_nat (length (d_entries (get_ds st ds)))) o_new
                 | WTxn _ => true
                 end in
-      ok && agree_run v pr st' ops'
-    | _ => agree_op pr st o && agree_run v pr st ops'
+      ok && agree_run v db pr st' ops'
+    | _ => agree_op db pr st o && agree_run v db pr st ops'
     end
   end.
 
-Definition agree (v : variant) (pr : proj) (c : tcase) : bool := agree_run v pr store0 c.
+Definition agree (v : variant) (db : bool) (pr : proj) (c : tcase) : bool := agree_run v db pr store0 c.
 
 (** ** The executable spec S, evaluated on the implementation's observations.
     State of the spec: one feed per dataset, built with [spec_write identical]. *)
@@ -149,7 +155,10 @@ Definition spec_op_ok (pr : proj) (s : sstate) (o : sop) : bool :=
                    if in_scope scope (fst p) then
                      match current_of (snd p) id with Some c => [(fst p, c)] | None => [] end
                    else []) s in
-      let live := filter (fun p => negb (c_del (snd p))) cur in
+      let live := match scope with
+                  | [_] => cur       (* scoped to one dataset: exactly the last version written there, deleted or not *)
+                  | _ => filter (fun p => negb (c_del (snd p))) cur
+                  end in
       if o_found then
         if merged && (1 <? Z.of_nat (length live)) then true
         else list_eqb partial_eqb live o_partials
@@ -180,20 +189,21 @@ Fixpoint spec_run (pr : proj) (s : sstate) (ops : list sop) : bool :=
 
 Definition spec_ok (pr : proj) (c : tcase) : bool := spec_run pr [] c.
 
-Definition evaluate (pr : proj) (cs : list tcase) : list (list N) :=
-  map (fun v => indices_where (fun c => negb (agree v pr c)) cs) variants
+Definition evaluate (dbs : list bool) (pr : proj) (cs : list tcase) : list (list N) :=
+  flat_map (fun db => map (fun v => indices_where (fun c => negb (agree v db pr c)) cs) variants) dbs
   ++ [ indices_where (fun c => negb (spec_ok pr c)) cs ].
-Definition evaluate_c02 := evaluate proj_c02.
-Definition evaluate_c01 := evaluate proj_c01.
+Definition evaluate_c02 := evaluate [false] proj_c02.
+(** C01: the 8 store variants with the pinned lookup, then the 8 with the repaired lookup *)
+Definition evaluate_c01 := evaluate [false; true] proj_c01.
 
 (** index of the first operation whose observation the model does not predict (diagnostics) *)
-Fixpoint first_bad (v : variant) (pr : proj) (st : store) (ops : list sop) (i : N) : option N :=
+Fixpoint first_bad (v : variant) (db : bool) (pr : proj) (st : store) (ops : list sop) (i : N) : option N :=
   match ops with
   | [] => None
   | o :: ops' =>
     match o with
     | SWrite w _ =>
-      if agree_run v pr st [o] then first_bad v pr (apply_wop (fst v) (snd v) st w) ops' (N.succ i) else Some i
-    | _ => if agree_op pr st o then first_bad v pr st ops' (N.succ i) else Some i
+      if agree_run v db pr st [o] then first_bad v db pr (apply_wop (fst v) (snd v) st w) ops' (N.succ i) else Some i
+    | _ => if agree_op db pr st o then first_bad v db pr st ops' (N.succ i) else Some i
     end
   end.
